@@ -94,7 +94,7 @@ func renderGToks(ts []gtok) []byte {
 	return []byte(sb.String())
 }
 
-func gIsStr(t gtok) bool  { return t.kind == lexer.String || t.kind == lexer.BlockString }
+func gIsStr(t gtok) bool            { return t.kind == lexer.String || t.kind == lexer.BlockString }
 func gIsName(t gtok, v string) bool { return t.kind == lexer.Name && t.val == v }
 
 type repair struct {
